@@ -92,8 +92,14 @@ fn filler(a: &mut Asm, rng: &mut Rng, max: u64) {
 
 /// Generates the program into `case` (cart parameters, ROM blobs). Returns the profile used.
 pub fn generate_program(rng: &mut Rng, case: &mut Case, thorough: bool) -> Profile {
+    generate_program_biased(rng, case, thorough, false)
+}
+
+/// `far_calls`: banked cartridge with many far calls (used with a reduced translation arena, so that the cache is emptied
+/// while code of several banks is being translated)
+pub fn generate_program_biased(rng: &mut Rng, case: &mut Case, thorough: bool, far_calls: bool) -> Profile {
     let p = Profile {
-        banked: rng.chance(1, 2),
+        banked: far_calls || rng.chance(1, 2),
         timer: rng.chance(2, 3),
         stat: rng.chance(1, 2),
         vblank: rng.chance(1, 2),
@@ -242,7 +248,10 @@ pub fn generate_program(rng: &mut Rng, case: &mut Case, thorough: bool) -> Profi
                 a.emit(&i);
             }
         }
-        let kind = rng.below(16);
+        let mut kind = rng.below(16);
+        if far_calls && kind < 6 {
+            kind = 12;
+        }
         match kind {
             0 | 1 => filler(&mut a, rng, 8),
             2 | 3 => {
@@ -305,7 +314,8 @@ pub fn generate_program(rng: &mut Rng, case: &mut Case, thorough: bool) -> Profi
             }
             12 => {
                 if p.banked && cart_type != 0 {
-                    let b = 1 + rng.below(banks as u64 - 1) as u8;
+                    // bank 1 (the tag a freshly created cache starts with) is over-represented on purpose
+                    let b = if rng.chance(1, 3) { 1 } else { 1 + rng.below(banks as u64 - 1) as u8 };
                     a.emit(&[0x3e, b, 0xea, 0x00, 0x20 + rng.below(0x20) as u8]);
                     let e = 0x4000 + 0x100 * rng.below(4) as u16;
                     a.emit(&[0xcd, e as u8, (e >> 8) as u8]);
